@@ -110,7 +110,7 @@ class Block:
         t0 = time.time()
         for idx in range(start, end):
             case = self.case_for(idx)
-            res = self.mod.run_case(case)
+            res = guarded_run_case(self.mod, case)
             for k, v in res.get("stats", {}).items():
                 stats[k] = stats.get(k, 0) + v
             if res.get("nontrivial"):
@@ -132,11 +132,45 @@ class Block:
 
     def run_single(self, idx):
         case = self.case_for(idx)
-        return {"case": case, "res": self.mod.run_case(case)}
+        return {"case": case, "res": guarded_run_case(self.mod, case)}
+
+
+def _library_frame(tb):
+    """Deepest traceback frame if it lies inside the library under test (compiled .pyx or its Python modules), else None."""
+    import traceback as _tb
+    frames = _tb.extract_tb(tb)
+    if not frames:
+        return None
+    f = frames[-1]
+    fn = f.filename.replace("\\", "/")
+    if fn.endswith(".pyx") or "/bioscrape/" in fn or fn.startswith("bioscrape/") or fn.startswith("lineage/"):
+        return f"{os.path.basename(fn)}:{f.name}"
+    return None
+
+
+def guarded_run_case(mod, case):
+    """run_case, except that an exception raised *by the library* at a place where the check did not expect one (the
+    deepest frame is library code) is a verdict about the library, not about the harness: it becomes a violation of class
+    library_raised (replayable like any other). Exceptions from harness code still propagate (HARNESS-ERROR)."""
+    try:
+        return mod.run_case(case)
+    except Exception as e:
+        where = _library_frame(e.__traceback__)
+        if where is None:
+            raise
+        sig = dict(_crash_signature(mod, case) or {}, where=where, error=type(e).__name__)
+        return {"violations": [{"class": "library_raised", "signature": sig,
+                                "detail": {"error": f"{type(e).__name__}: {str(e)[:300]}"}}],
+                "stats": {"library_raised": 1}, "sig": None, "nontrivial": False,
+                "digest": "library_raised:" + where, "sim_time": 0.0}
+
+
+def _guarded(mod):
+    return lambda case: guarded_run_case(mod, case)
 
 
 def _run_case_isolated(mod, case, timeout):
-    o = runner.call_isolated(mod.run_case, case, timeout=timeout)
+    o = runner.call_isolated(_guarded(mod), case, timeout=timeout)
     if o.status == "ok":
         return o.value.get("violations", []), o
     if o.status in ("crash", "hang"):
@@ -164,7 +198,7 @@ def _shrink_inproc(mod, case, vclass, budget_s):
             if time.time() - t0 > budget_s:
                 break
             try:
-                viols = mod.run_case(cand).get("violations", [])
+                viols = guarded_run_case(mod, cand).get("violations", [])
             except Exception:
                 continue
             if any(v["class"] == vclass for v in viols):
